@@ -30,7 +30,7 @@ Print Assumptions C01_guard_sound_expr.
    that manner and then the body does, run in a new frame holding the parameters whose parent is the scope the
    function was DEFINED in: the trace of the call is the traces of e1 .. ek in this order followed by the body's. *)
 Theorem C01_arguments_once_left_to_right : forall m n st sc f es ps body csc v st',
-  find_fun (funs st) f = Some (VClo ps body csc) -> List.length ps = List.length es ->
+  find_fun (funs st) f = Some (VClo ps [] body csc) -> List.length ps = List.length es ->
   (eval m (S n) st sc (ECall f es) = (Ok v, st') <->
    exists vs st1, args_ltr m (eval m n) sc st es vs st1 /\
      ev_seq (eval m n) (snd (alloc st1 (mk_frame ps vs))) ((List.length (frames st1), List.length (mk_frame ps vs)) :: csc) body VNil = (Ok v, st')).
@@ -173,10 +173,12 @@ Print Assumptions C01_iteration_in_order.
 Theorem C01_let_binds_values_refuted : fst (runM 60 w_let_values) <> fst (runS 60 w_let_values) /\ guardb 60 w_let_values = false.
 Proof. exact let_binds_values_refuted. Qed.
 Print Assumptions C01_let_binds_values_refuted.
-Theorem C01_too_few_arguments_refuted :
-  fst (runM 60 w_short_args) = Ok (VList [VInt 1; VSym "x"]) /\ fst (runS 60 w_short_args) = Er EArity /\ guardb 60 w_short_args = false.
-Proof. exact too_few_arguments_refuted. Qed.
-Print Assumptions C01_too_few_arguments_refuted.
+(* the binder fills one scope: a closure made by the default form of an &optional parameter sees the parameters bound
+   after it (known finding C01-default-form-closure-sees-later-parameters; guard clause locate_m) *)
+Theorem C01_default_closure_refuted :
+  fst (runM 60 w_default_closure) = Ok (VInt 5) /\ fst (runS 60 w_default_closure) = Ok (VInt 1) /\ guardb 60 w_default_closure = false.
+Proof. exact default_closure_refuted. Qed.
+Print Assumptions C01_default_closure_refuted.
 (* (10) Repaired defects (repo_fixes/C01-6 ...): the former witnesses, evaluated in the three modes - the model of the
    repaired Go code, the reference evaluator and the guard run agree, i.e. the programs are now inside the guard.
    End test of do / do* that is not a list form (t, a variable): evaluated like any other test. *)
@@ -274,3 +276,23 @@ Theorem C01_tests_look_at_primary_value :
                     | Ok (VInt 2), Ok (VList [VNil; VInt 4; VInt 6; VNil; VInt 2]) => true | _, _ => false end) [Slip; Ref; Chk] = true.
 Proof. exact tests_look_at_primary_value. Qed.
 Print Assumptions C01_tests_look_at_primary_value.
+
+(* the binder (slip bfffda3): a wrong number of arguments is an error in every mode, for every function and state;
+   &optional defaults are evaluated after the arguments, left to right, each seeing the parameters before it. *)
+Theorem C01_arity_error : forall m ev st ps os body csc args,
+  List.length args < List.length ps \/ List.length ps + List.length os < List.length args ->
+  apply_fn m ev st (CClo ps os body csc) args = (Er EArity, st).
+Proof. exact arity_error. Qed.
+Print Assumptions C01_arity_error.
+Theorem C01_wrong_argument_count_is_error :
+  forallb (fun m => match fst (run m 60 w_short_args), fst (run m 60 w_long_args) with
+                    | Er EArity, Er EArity => true | _, _ => false end) [Slip; Ref; Chk] = true.
+Proof. exact wrong_argument_count_is_error. Qed.
+Print Assumptions C01_wrong_argument_count_is_error.
+Theorem C01_optional_defaults_in_order :
+  forallb (fun m => match run m 60 w_opt1, run m 60 w_opt2 with
+                    | (Ok (VList [VInt 1; VInt 2; VInt 3]), s1), (Ok (VList [VInt 1; VInt 10; VInt 11]), s2) =>
+                        match trace s1, trace s2 with [1; 3; 4]%Z, [1; 2; 4]%Z => true | _, _ => false end
+                    | _, _ => false end) [Slip; Ref; Chk] = true.
+Proof. exact optional_defaults_in_order. Qed.
+Print Assumptions C01_optional_defaults_in_order.
